@@ -188,6 +188,30 @@ def gen_dtype_boundary_records(rng, n):
         kind, mm, thr = rng.choice(MATCH_CFGS + MERGE_CFGS)
         recs.append(rec_match(np.array(pred.tolist(), dtype=dtype), np.array(ref.tolist(), dtype=dtype), kind, mm, thr,
                               dtype=dtype, meta={"gen": "dtype-boundary"}))
+    # mixed magnitudes: every prediction matched to a SMALL reference label, plus unmatched references
+    # whose labels are large (multiples of 2^8 / 2^16, or congruent to a small label modulo those)
+    for i in range(n // 2):
+        dtype = [np.uint16, np.uint32, np.uint64][i % 3]
+        size = 12
+        ref = np.zeros(size, dtype=object)
+        pred = np.zeros(size, dtype=object)
+        small = rng.sample(range(1, 200), 2)
+        big_pool = [256, 512, 256 + small[0], 65536 if dtype != np.uint16 else 1024, 65536 + small[1] if dtype != np.uint16 else 768,
+                    2**24 if dtype != np.uint16 else 2**15]
+        bigs = rng.sample(big_pool, rng.randint(1, 2))
+        pos = list(range(size))
+        rng.shuffle(pos)
+        for j, lab in enumerate(small):
+            p = pos.pop()
+            ref[p] = lab
+            pred[p] = rng.randint(1, 200)
+            while list(pred).count(pred[p]) > 1:
+                pred[p] = rng.randint(1, 200)
+        for lab in bigs:
+            ref[pos.pop()] = lab
+        kind, mm, thr = rng.choice(MATCH_CFGS + MERGE_CFGS)
+        recs.append(rec_match(np.array(pred.tolist(), dtype=dtype), np.array(ref.tolist(), dtype=dtype), kind, mm, thr,
+                              dtype=dtype, meta={"gen": "mixed-magnitude"}))
     return recs
 
 
